@@ -124,6 +124,17 @@ func cmdSelftest(args []string) int {
 				}
 			}
 		}
+		for _, b := range res.bounded {
+			if !b.OK {
+				nm := "bounded." + b.Name
+				failed = append(failed, nm+"(counterexample)")
+				for _, e := range m.Expect {
+					if strings.Contains(nm, e) {
+						hit = true
+					}
+				}
+			}
+		}
 		if len(m.Expect) == 0 && len(res.failed) > 0 {
 			hit = true
 		}
